@@ -8,9 +8,15 @@ SExternal == <<"e","x","t","e","r","n","a","l">>
 SNeighbors == <<"n","e","i","g","h","b","o","r","s">>
 SDeps == <<"d","e","p","e","n","d","e","n","c","i","e","s">>
 Order2 == <<SDefault, SBuild>>
+Order1 == <<SCompiler>>
+TwoClasses == {"str_hash", "flt_frac"}
 Order7 == <<SDefault, SCompiler, SBuild, SCache, SExternal, SNeighbors, SDeps>>
 Keys2 == {<<"n","a","m","e">>, <<"o","p","t","_","1">>}
 Keys1 == {<<"n","a","m","e">>}
+Alpha == {"a", "7", " ", "#", "=", "[", "]", "\"", "\\", ".", "-"}
+Prefixes == {<<>>, <<"k", " ", "=", " ">>, <<"[", "s", "]", "=">>}
+NoAlpha == {}
+NoPrefix == {<<>>}
 AllClasses == {"str_plain", "str_empty", "str_hash", "str_eq", "str_bracket", "str_blanks", "str_digits",
                "str_float", "str_True", "bool_true", "bool_false", "int_pos", "int_zero", "int_neg", "int_max",
                "flt_frac", "flt_negfrac", "flt_tiny", "flt_integral", "flt_negintegral", "flt_zero", "flt_1e19"}
